@@ -297,12 +297,13 @@ fn main() {
             sink.count("byte entry points: all strings <= 2 over 256 bytes", all2.len() as u64 + 257);
             // class alphabet strings
             let n = if thorough { 5 } else { 4 };
-            let cls: Vec<Vec<usize>> = strings_of(alpha.len(), n).collect();
-            cls.par_iter().for_each(|s| {
-                let inp: Vec<u8> = s.iter().map(|&i| alpha[i]).collect();
+            // (index-decoded: the list of 50^5 strings would not fit in memory)
+            let ncls = (alpha.len() as u64).pow(n as u32);
+            (0..ncls).into_par_iter().for_each(|i| {
+                let inp: Vec<u8> = string_at(alpha.len(), n, i).iter().map(|&i| alpha[i]).collect();
                 check_bytes_input(&sink, &inp);
             });
-            sink.count(&format!("byte entry points: class alphabet, length {n}"), cls.len() as u64);
+            sink.count(&format!("byte entry points: class alphabet, length {n}"), ncls);
             // focused alphabets, longer strings: sequences aborted and restarted (stale bookkeeping),
             // sub-parameters, OSC fields, string terminators inside characters
             for (name, syms, len) in [
@@ -310,15 +311,15 @@ fn main() {
                 ("osc focus", &[0x1bu8, b']', b'a', b';', 0x07, 0x18, b'\\', 0x9c][..], if thorough { 8 } else { 7 }),
                 ("utf8/st focus", &[0x1bu8, b'_', b'P', b'\\', b'a', 0x0a, 0xe2, 0x9c, 0x85, 0xc3, 0xa9, 0xf0, 0x9f, 0x80][..], if thorough { 6 } else { 5 }),
             ] {
-                let strs: Vec<Vec<usize>> = strings_upto(syms.len(), len).collect();
-                strs.par_iter().for_each(|s| {
-                    let inp: Vec<u8> = s.iter().map(|&i| syms[i]).collect();
+                let nstrs = count_upto(syms.len(), len);
+                (0..nstrs).into_par_iter().for_each(|i| {
+                    let inp: Vec<u8> = string_upto_at(syms.len(), len, i).iter().map(|&i| syms[i]).collect();
                     check_bytes_input(&sink, &inp);
                     if let Ok(t) = std::str::from_utf8(&inp) {
                         check_str_input(&sink, t, false);
                     }
                 });
-                sink.count(&format!("byte entry points: {name}, length <= {len}"), strs.len() as u64);
+                sink.count(&format!("byte entry points: {name}, length <= {len}"), nstrs);
             }
             // every BMP character inside and after each kind of sequence, through the text entry points
             {
@@ -364,12 +365,13 @@ fn main() {
             sink.count("byte entry points: limit-reaching macro inputs x 256 bytes x 3 positions", macros.len() as u64 * 768);
             // text entry points
             let n = if thorough { 4 } else { 3 };
-            let texts: Vec<Vec<usize>> = strings_upto(text_alpha.len(), n).collect();
-            texts.par_iter().for_each(|s| {
+            let ntexts = count_upto(text_alpha.len(), n);
+            (0..ntexts).into_par_iter().for_each(|i| {
+                let s = string_upto_at(text_alpha.len(), n, i);
                 let inp: String = s.iter().map(|&i| text_alpha[i]).collect();
                 check_str_input(&sink, &inp, s.len() <= 3);
             });
-            sink.count(&format!("text entry points: strings <= {n} over {} symbols", text_alpha.len()), texts.len() as u64);
+            sink.count(&format!("text entry points: strings <= {n} over {} symbols", text_alpha.len()), ntexts);
             colour_sweeps(&sink, thorough);
             // the strip stream (and the pass-through modes) over an inner writer that short-writes and fails:
             // the fault branches do offset arithmetic on the caller's buffer; only panics are this property's business
